@@ -249,8 +249,21 @@ func runC05(c *fw.Case) {
 		}
 	}()
 	wg.Wait()
-	end := now()
-	_ = end
+	// after all clients have returned, one more client reads every key: the final state must fit the history too
+	for k := 0; k < nKeys && opErr == nil; k++ {
+		key := fmt.Sprintf("key%d", k)
+		call := now()
+		v, e := db.Get(key)
+		ret := now()
+		out := linOut{}
+		if e == nil {
+			out = linOut{v, true}
+		} else if !errors.Is(e, simpledb.ErrNotFound) {
+			opErr = fmt.Errorf("final read of %s: %w", key, e)
+			break
+		}
+		ops = append(ops, porcupine.Operation{ClientId: nClients, Input: linIn{0, key, ""}, Call: call, Output: out, Return: ret})
+	}
 	flIn := simpledb.VerifPointCount("flusher.done") - flush0
 	cpIn := simpledb.VerifPointCount("compaction.reflected") - comp0
 	atomic.StoreInt32(&clientsDone, 1)
